@@ -543,3 +543,16 @@ Fixpoint mismatches_from (i : nat) (cs : list case) : list (nat * nat) :=
               end
   end.
 Definition mismatches := mismatches_from 0.
+
+(** also report the histories that are outside the hypotheses of the no-panic /
+    liveness theorems; their detail is (number of events + 1), which no index of a
+    diverging observation can be *)
+Definition case_wf (k : case) : bool :=
+  wf_cfg (k_cfg k) && forallb (wf_ev (k_cfg k)) (map fst (k_trace k)).
+Fixpoint not_wf_from (i : nat) (cs : list case) : list (nat * nat) :=
+  match cs with
+  | [] => []
+  | k :: r => if case_wf k then not_wf_from (S i) r
+              else (i, S (length (k_trace k))) :: not_wf_from (S i) r
+  end.
+Definition audit (cs : list case) : list (nat * nat) := mismatches cs ++ not_wf_from 0 cs.
